@@ -36,7 +36,8 @@ impl AnonymousIngressEngine {
 
   pub fn deregister_pipe(&self, pipe_id: usize) {
     self.queue.deregister_pipe(pipe_id);
-    *self.local_cache.lock() = None;
+    // The cached frames are the rest of a message that was already received whole; a pipe
+    // detaching (this peer's or any other's) must not truncate what the application is reading.
   }
 
   pub fn close(&self) {
